@@ -12,6 +12,7 @@ Roles(e) == CASE e = "burgers" -> {"nu", "all"}
 Layouts(e) == CASE e = "ns" -> {"u_first", "p_first"}
                 [] e = "glv" -> {"flat_main1", "flat_main2", "nested_main1", "nested_main3"}
                 [] e = "masscons" -> {"single", "second"}
+                [] e = "burgers" -> {"std", "sliced"}      \* sliced: the solution is the SECOND output of a two-output network (slice_solution)
                 [] OTHER -> {"std"}
 Dims(e) == IF e = "fisher" THEN {1, 2} ELSE {0}
 Space == UNION {[kind : {"eq_struct"}, eq : {e}, Tmax : {1, 2, 4}, role : Roles(e), layout : Layouts(e), dim : Dims(e), rep : 1..2]
